@@ -54,6 +54,10 @@ var c44DefaultAddress = map[string]string{
 	chainEthereum.WalletProposalValidatorContractName:   "0xE7d33d8AA55B73a93059a24b900366894684a497",
 }
 
+// finding key of D18: a `network` key in the configuration file overrides the
+// flag-selected Ethereum / Bitcoin network
+const c44FindingNetworkFromFile = "C44.network-from-file"
+
 var c44Once sync.Once
 
 func c44Setup() {
@@ -346,10 +350,10 @@ func c44CheckNetworks(t *rapid.T, sel c44Selection, cfg *Config) c44Net {
 		}
 	}
 	if got == nil {
-		t.Fatalf("%v: Ethereum network %v and Bitcoin network %v do not belong to one client network", sel, cfg.Ethereum.Network, cfg.Bitcoin.Network)
+		t.Fatalf("%v: Ethereum network %d and Bitcoin network %d do not belong to one client network", sel, cfg.Ethereum.Network, cfg.Bitcoin.Network)
 	}
 	if want := sel.selected(); want != "" && got.name != want {
-		t.Fatalf("%v selects %s but the config runs on %s (ethereum %v, bitcoin %v)", sel, want, got.name, cfg.Ethereum.Network, cfg.Bitcoin.Network)
+		t.Fatalf("%v selects %s but the config runs on %s (ethereum %d, bitcoin %d)", sel, want, got.name, cfg.Ethereum.Network, cfg.Bitcoin.Network)
 	}
 	return *got
 }
@@ -644,7 +648,34 @@ func TestVerif_C44_ReadConfig(t *testing.T) {
 
 		// configuration file
 		var b strings.Builder
-		b.WriteString("[" + c44Key(t, "ethereum") + "]\n" + c44Key(t, "URL") + " = \"ws://c44.example:8546\"\nKeyFile = \"/tmp/c44-keyfile\"\n\n")
+		// a `network` key in the [ethereum] / [bitcoin] section (the Config
+		// structs embed their Network field, so the file can name it): absent,
+		// equal to the selected network, another valid value, out of range
+		selectedValue := map[string]int{"mainnet": 1, "testnet": 2, "developer": 3}[sel.selected()]
+		genNetworkKey := func(label string) (string, string) {
+			if verifkit.Known(c44FindingNetworkFromFile) {
+				return "", "absent"
+			}
+			switch rapid.IntRange(0, 9).Draw(t, label+"NetworkKey") {
+			case 0, 1:
+				return fmt.Sprintf("%s = %d\n", rapid.SampledFrom([]string{"Network", "network"}).Draw(t, label+"NetworkKeyCase"), selectedValue), "same"
+			case 2, 3:
+				other := rapid.SampledFrom([]int{0, 1, 2, 3}).Filter(func(v int) bool { return v != selectedValue }).Draw(t, label+"OtherNetwork")
+				return fmt.Sprintf("%s = %d\n", rapid.SampledFrom([]string{"Network", "network"}).Draw(t, label+"NetworkKeyCase"), other), "other"
+			case 4:
+				return fmt.Sprintf("%s = %d\n", rapid.SampledFrom([]string{"Network", "network"}).Draw(t, label+"NetworkKeyCase"), rapid.SampledFrom([]int{4, 7, 100}).Draw(t, label+"BadNetwork")), "out-of-range"
+			}
+			return "", "absent"
+		}
+		ethNetworkLine, ethNetworkKind := genNetworkKey("ethereum")
+		btcNetworkLine, btcNetworkKind := genNetworkKey("bitcoin")
+		if verifkit.Known(c44FindingNetworkFromFile) {
+			st.Excluded(c44FindingNetworkFromFile)
+		}
+		b.WriteString("[" + c44Key(t, "ethereum") + "]\n" + c44Key(t, "URL") + " = \"ws://c44.example:8546\"\nKeyFile = \"/tmp/c44-keyfile\"\n" + ethNetworkLine + "\n")
+		if btcNetworkLine != "" {
+			b.WriteString("[bitcoin]\n" + btcNetworkLine + "\n") // same spelling as [bitcoin.electrum]: TOML tables differing only in case would collide in viper
+		}
 		b.WriteString("[bitcoin.electrum]\nConnectTimeout = \"54s\"\n")
 		if url.file != "" {
 			b.WriteString(c44Key(t, "URL") + " = \"" + url.file + "\"\n")
@@ -669,7 +700,7 @@ func TestVerif_C44_ReadConfig(t *testing.T) {
 			b.WriteString("[" + c44Key(t, "developer") + "]\n" + dev)
 		}
 		useFile := true
-		anyFileValue := url.file != "" || len(peersFile) > 0 || emptyPeersInFile || dev != ""
+		anyFileValue := url.file != "" || len(peersFile) > 0 || emptyPeersInFile || dev != "" || ethNetworkLine != "" || btcNetworkLine != ""
 		if !anyFileValue && rapid.Bool().Draw(t, "noConfigFile") {
 			useFile = false
 		}
@@ -701,8 +732,18 @@ func TestVerif_C44_ReadConfig(t *testing.T) {
 		}
 
 		cfg := &Config{}
+		fileNetworks := ""
+		if useFile && (ethNetworkKind != "absent" || btcNetworkKind != "absent") {
+			fileNetworks = fmt.Sprintf(" [finding-key=%s] (the file says ethereum: %q bitcoin: %q)", c44FindingNetworkFromFile, strings.TrimSpace(ethNetworkLine), strings.TrimSpace(btcNetworkLine))
+		}
 		if err := cfg.ReadConfig(path, fs); err != nil {
-			t.Fatalf("%v: ReadConfig failed: %v\nfile:\n%s", sel, err, b.String())
+			t.Fatalf("%v: ReadConfig failed: %v%s\nfile:\n%s", sel, err, fileNetworks, b.String())
+		}
+		if fileNetworks != "" {
+			want := c44Nets[sel.selected()]
+			if cfg.Ethereum.Network != want.eth || cfg.Bitcoin.Network != want.btc {
+				t.Fatalf("%v selects %s (ethereum %d, bitcoin %d) but the config runs on ethereum %d / bitcoin %d%s", sel, want.name, want.eth, want.btc, cfg.Ethereum.Network, cfg.Bitcoin.Network, fileNetworks)
+			}
 		}
 		net := c44CheckNetworks(t, sel, cfg)
 		peers := peersFile
@@ -732,7 +773,7 @@ func TestVerif_C44_ReadConfig(t *testing.T) {
 			}
 			return name + ":unset"
 		}
-		labels = append(labels, "net:"+net.name, fmt.Sprintf("configFile:%v", useFile), fmt.Sprintf("flags-mentioned:%d", sel.mentioned()), fmt.Sprintf("explicit-false:%v", sel.mentioned() > sel.count()),
+		labels = append(labels, "net:"+net.name, fmt.Sprintf("configFile:%v", useFile), fmt.Sprintf("flags-mentioned:%d", sel.mentioned()), fmt.Sprintf("explicit-false:%v", sel.mentioned() > sel.count()), "file-eth-network:"+ethNetworkKind, "file-btc-network:"+btcNetworkKind,
 			srcLabel("peers", len(peersFile) > 0, len(peersFlag) > 0), srcLabel("electrum", url.file != "", url.flag != ""))
 		someExplicit := explicit > 0 || len(peers) > 0 || url.effective() != ""
 		someUnset := unset > 0 && (len(peers) == 0 || url.effective() == "")
